@@ -62,6 +62,7 @@ __CPROVER_ensures(self->g_prod_gone ==> PROD_UNCHANGED(self))
 __CPROVER_ensures((RET == NULL) == (self->_writer_pos_cache == self->_reader_pos))
 __CPROVER_ensures(D(self->g_cons_lb, self->_reader_pos) >= D(OLD(self->g_cons_lb), self->_reader_pos))
 __CPROVER_ensures(RET == NULL ==> self->_reader_pos == OLD(self->g_cons_lb))
+__CPROVER_ensures(D(self->_writer_pos_cache, self->_reader_pos) >= D(OLD(self->_writer_pos_cache), self->_reader_pos) && D(self->_writer_pos_cache, self->_reader_pos) <= self->_capacity)
 ''',
     'empty': r'''
 __CPROVER_requires(FRESHQ(self) && INV(self))
@@ -418,3 +419,35 @@ __CPROVER_ensures(RET == self->_producer->bounded_queue._capacity) /*@ C20 "prod
 ]
 
 UNITS = REFINES + [handle_full, shrink, prepare_write, read_next, prepare_read, empty] + FW
+
+# ---------------------------------------------------------------------------------- refinement: opaque BQ consumer contracts => the abstract queue view of the BackendWorker skeletons
+# (units/bw_read.py: g_avail = bytes visible to the consumer, g_base = address of the reader position)
+QV = OPAQUE + r'''
+#define G_AVAIL(q) D((q)->_writer_pos_cache, (q)->_reader_pos)
+'''
+
+
+def qview_unit(m, sig, body, contract, callee):
+    return dict(
+        name='Q.refine.' + m, primary='C03', props={'C03'}, kind='M',
+        desc='refinement lemma: the abstract frontend-queue contract used by the BackendWorker read loop (visible bytes / reader address) for %s follows from the bounded queue\'s consumer contract with g_avail := writer_pos_cache - reader_pos' % m,
+        structs=[BQ_STRUCT], prelude=QV + odecl(callee), enforce='QV_' + m, replace=['BQ_' + callee],
+        funcs=[dict(cfun='QV_' + m, text=sig + '\n' + contract + '\n' + body)],
+        harness='  BQ* q; size_t n; %s;' % ('QV_%s(q, n)' % m if 'size_t n' in sig else 'QV_%s(q)' % m),
+        dropped=[], trusted=['the reader ADDRESS part (ret == storage + (reader_pos & mask)) is the C01 clause of BQ.prepare_read itself'], min_obligations=3)
+
+
+QVIEW = [
+    qview_unit('prepare_read', 'unsigned char* QV_prepare_read(BQ* self)', '{ return BQ_prepare_read(self); }', r'''
+__CPROVER_requires(FRESHQ(self) && INV(self) && G_AVAIL(self) <= self->_capacity)
+__CPROVER_assigns(self->_writer_pos_cache, self->g_cons_hb, self->g_cons_lb, PROD_FIELDS(self))
+__CPROVER_ensures(INV(self) && G_AVAIL(self) >= OLD(G_AVAIL(self)) && G_AVAIL(self) <= self->_capacity) /*@ C03 "abstract queue view: looking again never hides visible bytes; at most one capacity is visible" */
+__CPROVER_ensures((RET == NULL) == (G_AVAIL(self) == 0)) /*@ C03 "abstract queue view: null exactly when nothing is visible" */
+''', 'prepare_read'),
+    qview_unit('finish_read', 'void QV_finish_read(BQ* self, size_t n)', '{ BQ_finish_read(self, n); }', r'''
+__CPROVER_requires(FRESHQ(self) && INV(self) && n > 0 && n <= G_AVAIL(self))
+__CPROVER_assigns(self->_reader_pos)
+__CPROVER_ensures(INV(self) && G_AVAIL(self) == OLD(G_AVAIL(self)) - n && self->_reader_pos == OLD(self->_reader_pos) + n) /*@ C03 "abstract queue view: finishing n bytes removes exactly n visible bytes and advances the reader position by n" */
+''', 'finish_read'),
+]
+UNITS += QVIEW
